@@ -326,6 +326,20 @@ def shard(ctx, payload):
                     args.append((ct, ev, '%d' % (c // 100)))
                 if timed and c >= 6000 and c % 5 == 0:
                     args.append((ct, ev, mss(c)))
+            # caller spellings of the event x carriers of the mark (run / field is decided on the code in both languages)
+            mid = (lo + hi) // 2
+            spell = [' ' + ev, ev + ' ', '\t' + ev, ev + '\n', ev.lower(), ev.swapcase(), ' ' + ev.lower() + ' ']
+            for _ in range(10):
+                kind_, v = variants.variant(ev, rng.randrange)
+                if v != ev and v.isascii():
+                    spell += [v, ' ' + v]
+            for sp_ in spell:
+                for cts in (ct, ct.lower(), ' ' + ct):
+                    c = mid + rng.randrange(-200, 200)
+                    for mk in [centi_float(c), fmt2(c), '%d' % (c // 100), c // 100, '%d.%d' % (c // 100, (c % 100) // 10)] + \
+                            ([mss(c), mss(c)[:-1]] if timed and c >= 6000 else []):
+                        args.append((cts, sp_, mk))
+            ctx.label('qkids-caller-spellings', len(spell))
             names = {v: k for k, v in mod('qkids_score')._compTypeMap.items()}
             if ct in names:
                 args.append((names[ct].title(), ev, fmt2((lo + hi) // 2)))
